@@ -116,6 +116,42 @@ class Reprful(Plain):
         return self is other
 
 
+class Itemsful(Logged):
+    """Not a Mapping and not a Sequence, but its class has methods named like theirs (a session object, a header
+    list, an ORM row): having such a method does not make the object a mapping, and a template must not get it called."""
+
+    _shape = "itemsful"
+
+    def __init__(self) -> None:
+        self.secret = MARK + "-instance-attr"
+
+    def items(self) -> Any:
+        return [("tok", MARK + "-items-result")]
+
+    def keys(self) -> Any:
+        return [MARK + "-keys-result"]
+
+    def values(self) -> Any:
+        return [MARK + "-values-result"]
+
+    def get(self, key: Any, default: Any = None) -> Any:
+        return MARK + "-get-result"
+
+    def first(self) -> Any:
+        return MARK + "-first-result"
+
+    def last(self) -> Any:
+        return MARK + "-last-result"
+
+    def size(self) -> Any:
+        return MARK + "-size-result"
+
+    def __str__(self) -> str:
+        return "itemsful-object"
+
+    __repr__ = __str__
+
+
 class MapDrop(Logged, Mapping):  # type: ignore[type-arg]
     _shape = "mapdrop"
     cls_secret = MARK + "-class-attr"
@@ -249,6 +285,7 @@ def make_objects() -> dict[str, Any]:
     return {
         "plain": plain,
         "reprful": Reprful(),
+        "itemsful": Itemsful(),
         "mapdrop": MapDrop(),
         "seqdrop": SeqDrop(),
         "classobj": ClassObj,
